@@ -5,6 +5,7 @@ from pyvc.contract import (contract, requires, ensures, LoopSpec, clause, implie
 
 SER = "html5lib.serializer.HTMLSerializer"
 TYPES = ("Doctype", "Characters", "SpaceCharacters", "StartTag", "EndTag", "EmptyTag", "Comment")
+HTML_NS = "http://www.w3.org/1999/xhtml"
 RAWTEXT = frozenset(["style", "script", "xmp", "iframe", "noembed", "noframes", "noscript"])
 # html5lib's void element table (constants.voidElements), which decides where a trailing solidus is written
 VOID = frozenset(["area", "base", "br", "col", "command", "embed", "event-source", "hr", "img", "input", "link", "meta",
@@ -15,8 +16,10 @@ BOUND = "at most 1 (quick; then the tag name is one of a/input/style) / 2 (thoro
 def serializer(S):
     import os
     thorough = os.environ.get("VERIF_TIER_EFFECTIVE") == "thorough"
-    return S.obj(SER, quote_attr_values=S.one_of("legacy", "spec", "always"),
-                 quote_char=S.one_of('"', "'"), use_best_quote_char=S.bool("use_best_quote_char"),
+    # quoting options: symbolic (constrained to their legal values) for tokens that have no attribute; ser_token makes
+    # them concrete case splits for the tokens whose attributes read them
+    return S.obj(SER, quote_attr_values=S.str_in("quote_attr_values", ("legacy", "spec", "always")),
+                 quote_char=S.str_in("quote_char", ('"', "'")), use_best_quote_char=S.bool("use_best_quote_char"),
                  omit_optional_tags=False,
                  minimize_boolean_attributes=S.bool("minimize_boolean_attributes") if thorough else False,
                  use_trailing_solidus=S.bool("use_trailing_solidus"),
@@ -33,6 +36,8 @@ def ser_token(S, L=None):
     d = S.dict({"type": t})
     if t in ("StartTag", "EndTag", "EmptyTag", "Doctype"):
         d.entries["name"] = [S.str("token.name"), True]
+    if t in ("StartTag", "EndTag", "EmptyTag"):
+        d.entries["namespace"] = [S.one_of(None, lambda: S.str("token.namespace")), True]
     if t == "Doctype":
         d.entries["publicId"] = [S.one_of(None, lambda: S.str("publicId")), True]
         d.entries["systemId"] = [S.one_of(None, lambda: S.str("systemId")), True]
@@ -41,6 +46,9 @@ def ser_token(S, L=None):
         d.entries["data"] = [S.str("token.text"), True]
     elif t in ("StartTag", "EmptyTag"):
         k = S.choice(most + 1)
+        if k >= 1 and L is not None:
+            L.self.fields["quote_attr_values"] = S.one_of("legacy", "spec", "always")
+            L.self.fields["quote_char"] = S.one_of('"', "'")
         if k >= 1 and most == 1:
             # quick tier: tags that carry attributes have one of three representative names (ordinary, void,
             # raw text); attribute-free tags and the thorough tier keep the name arbitrary
@@ -89,7 +97,8 @@ def step_raw_text_state(pre, token, in_cdata, self):
     """in_cdata is true exactly from the start tag of a raw-text element to its end tag"""
     t = token["type"]
     if t == "StartTag" or t == "EmptyTag":
-        if token["name"] in RAWTEXT and not self.escape_rcdata:
+        # raw text elements are HTML elements: a foreign <style>/<script> is ordinary markup to the parser
+        if token["name"] in RAWTEXT and not self.escape_rcdata and (token["namespace"] is None or token["namespace"] == HTML_NS):
             return in_cdata is True
         return in_cdata == pre.in_cdata
     if t == "EndTag":
@@ -237,12 +246,13 @@ class SerializeTagThenText:
 
     @ensures("C08", "C10", "C07")
     @bounded("streams of one start tag (any name, no attributes) followed by one text token")
-    def text_after_a_start_tag_is_escaped_unless_raw_text(self, name, data, result):
+    def text_after_a_start_tag_is_escaped_unless_raw_text(self, name, data, result, treewalker):
         out = "".join(result)
         tag = "<" + name
         if name in VOID and self.use_trailing_solidus:
             tag = tag + (" /" if self.space_before_trailing_solidus else "/")
         tag = tag + ">"
-        if name in RAWTEXT and not self.escape_rcdata:
+        ns = treewalker[0]["namespace"]
+        if name in RAWTEXT and not self.escape_rcdata and (ns is None or ns == HTML_NS):
             return out == tag + data and (("</" not in data) or len(self.errors) > 0)
         return out == tag + data.replace("&", "&amp;").replace(">", "&gt;").replace("<", "&lt;")
